@@ -169,16 +169,23 @@ impl Tokenizer<'_> {
             self.next_char()?;
             first_char = false;
         }
+        let span = Span::new(self.file_id, start_pos, (self.line, self.pos));
         if is_int && output != "-" {
-            Some(Token::Integer {
-                span: Span::new(self.file_id, start_pos, (self.line, self.pos)),
-                value: output.parse::<i64>().unwrap(),
-            })
+            match output.parse::<i64>() {
+                Ok(value) => Some(Token::Integer { span, value }),
+                Err(e) => Some(Token::ParserError(ParserError::syntax_error(
+                    format!("Invalid integer literal {}: {}", output, e),
+                    span,
+                ))),
+            }
         } else if is_float {
-            Some(Token::Float {
-                span: Span::new(self.file_id, start_pos, (self.line, self.pos)),
-                value: output.parse::<f64>().unwrap(),
-            })
+            match output.parse::<f64>() {
+                Ok(value) => Some(Token::Float { span, value }),
+                Err(e) => Some(Token::ParserError(ParserError::syntax_error(
+                    format!("Invalid float literal {}: {}", output, e),
+                    span,
+                ))),
+            }
         } else {
             Some(Token::Ident {
                 span: Span::new(self.file_id, start_pos, (self.line, self.pos)),
@@ -373,7 +380,12 @@ impl Parser<'_, '_> {
         let _ = self.tokenizer.next();
 
         if got_dot {
-            let next = self.parse_value()?.unwrap();
+            let Some(next) = self.parse_value()? else {
+                return Err(
+                    Error::new(ErrorKind::ParsingError, "Unclosed list".to_string())
+                        .with_trace(TulispObject::nil().with_span(Some(start_span))),
+                );
+            };
             if let Some(Token::CloseParen { span: end_span }) = self.tokenizer.next() {
                 inner.with_span(Some(Span {
                     file_id: self.file_id,
